@@ -329,7 +329,7 @@ func (g *SchemaGen) objectInstance(root, s map[string]any, depth int, flip float
 	}
 	if deps, ok := s["dependencies"].(map[string]any); ok {
 		for _, k := range sortedKeys(deps) {
-			if g.R.P(0.6) {
+			if g.R.P(0.75) {
 				if _, present := o[k]; !present {
 					o[k] = g.FreeValue(1)
 				}
